@@ -110,7 +110,10 @@ package util
 //@ requires 0 <= d && d <= clen(c) && forall(k, clen(c) - d, clen(c), isSpace(at(c, k)))
 //@ ensures leadws(c, clen(c) - d) == clen(c)
 
+// TrimLength memoises its result in the item: the memo, once set, always holds the value the function computes,
+// so scoring the same line twice gives the same sort key (C05) and the length tiebreak (C04) is stable.
 //@ func Chars.TrimLength
+//@ property C05 C04
 //@ requires chars != nil && trimMemoOK(chars)
 //@ use leadws_all(chars, clen(chars))
 //@ modifies chars.trimLengthKnown, chars.trimLength
